@@ -14,8 +14,36 @@ PID = "C03"
 class KindGen(G.GrammarGen):
     """Chains and cycles of abstract rules, mixed alternatives of match and common references."""
 
+    def cascade(self):
+        """Cycles of attribute-less rules that depend on other such cycles; only the innermost one reaches a common
+        rule, so the kind of the outer rules follows from it through several rounds of inference."""
+        r = self.rng
+        k = r.randrange(2, 4)
+        leaf = G.RuleD("L", G.Seq([G.Str("k"), G.Asg("v", "=", G.Ref(r.choice(["INT", "ID"])))]))
+        brs = [("(", ")"), ("[", "]"), ("<", ">")]
+        rules, inner = [], "L"
+        for i in range(k):
+            p, q = "P%d" % i, "Q%d" % i
+            o, c = brs[i]
+            first = G.Seq([G.Str(o), G.Ref(q), G.Str(c)])
+            rules.append(G.RuleD(p, G.Alt([first, G.Ref(inner)] if r.random() < 0.7 else [G.Ref(inner), first])))
+            rules.append(G.RuleD(q, G.Alt([G.Ref(p), G.Str(r.choice(["nil", "none", "z"]))])))
+            inner = r.choice([p, q])
+        rules.append(leaf)
+        if r.random() < 0.6:
+            pass                      # as written: innermost cycle first ("upstream first")
+        else:
+            r.shuffle(rules)
+        top = G.RuleD("M", G.Asg("c", "+=", G.Ref(inner)))
+        g = dict(rules=[top] + rules)
+        return G.number(g) if G.well_formed(g) else None
+
     def grammar(self):
         r = self.rng
+        if r.random() < 0.12:
+            g = self.cascade()
+            if g is not None:
+                return g
         for _ in range(300):
             n = r.randrange(3, 9)
             names = ["M", "A", "B", "C", "D", "F", "G", "H"][:n]
